@@ -58,6 +58,7 @@ type VC struct {
 	csHit         map[*CallSite]bool
 	indexTerms    []string
 	knownRefs     []string
+	progTerms     []skolem
 	cuts          []cutPoint
 	privRefs      []string
 	rowFacts      int
